@@ -212,9 +212,34 @@ func ruleC08Finish(cx *Ctx) {
 
 // finisherTarget resolves the finish callback handed to doCall/doBulkCall: a bound method value, or a closure that does
 // nothing but forward its record to one function (returned), "" otherwise.
-func finisherTarget(v ssa.Value) *ssa.Function {
+func finisherTarget(v ssa.Value) *ssa.Function { return finisherTargetD(v, 0) }
+
+func finisherTargetD(v ssa.Value, depth int) *ssa.Function {
 	if bm := boundMethod(v); bm != nil {
 		return origin(bm)
+	}
+	// a factory of the module that builds the callback: every value it returns resolves to the same target
+	if c, ok := v.(*ssa.Call); ok && depth < 2 {
+		if g := calleeOf(c); g != nil && g.Pkg != nil && strings.HasPrefix(g.Pkg.Pkg.Path(), modPath) && len(origin(g).Blocks) > 0 {
+			var target *ssa.Function
+			okAll, n := true, 0
+			allInstrs(origin(g), func(in ssa.Instruction) {
+				ret, isRet := in.(*ssa.Return)
+				if !isRet || len(ret.Results) != 1 {
+					return
+				}
+				n++
+				t := finisherTargetD(ret.Results[0], depth+1)
+				if t == nil || (target != nil && t != target) {
+					okAll = false
+				}
+				target = t
+			})
+			if okAll && n > 0 {
+				return target
+			}
+			return nil
+		}
 	}
 	cl := closureOf(v)
 	if cl == nil || len(cl.Params) != 1 {
